@@ -95,6 +95,9 @@ def gen_case(rng, idx, tier):
         val = float(np.round(rng.uniform(0.3, 3.0), 2))
         chain.append({'op': op, 'v': val, 'left': bool(rng.random() < 0.5)})
     spec['chain'] = chain
+    if fam == 'plain' and spec['atom'] in ('expsum', 'logsum') and depth and rng.random() < 0.7:
+        # this many chain steps are applied to the ARRAY exp(x) / log(x), before .sum()
+        spec['inside_sum'] = int(rng.integers(1, depth + 1))
     if fam == 'epw' and depth and rng.random() < 0.6:
         spec['inside_E'] = int(rng.integers(1, depth + 1))   # this many chain steps inside E()
     spec['use'] = ['le', 'ge', 'eq', 'le', 'ge', 'min', 'max'][int(rng.integers(7))]
@@ -109,7 +112,11 @@ def gen_case(rng, idx, tier):
 def calculus(spec):
     """(s, w, k): E = s*atom + w*y + k after the chain."""
     s, w, k = 1.0, 0.0, 0.0
-    for o in spec['chain']:
+    inside = int(spec.get('inside_sum', 0))
+    for pos, o in enumerate(spec['chain']):
+        if inside and pos == inside:
+            # .sum() over n entries: constants and scalar affine terms were broadcast to each
+            w, k = w * spec['n'], k * spec['n']
         op, v = o['op'], o['v']
         if op in ('mulpos', 'mulnp'):
             s, w, k = s * v, w * v, k * v
@@ -131,6 +138,8 @@ def calculus(spec):
             w -= v
         elif op == 'affsub':
             s, w, k = -s, v - w, -k
+    if inside and inside >= len(spec['chain']):
+        w, k = w * spec['n'], k * spec['n']
     return s, w, k
 
 
@@ -181,6 +190,10 @@ def atom_expr(spec, d):
     rso, x = d['rso'], d['x']
     fam = spec['family']
     if fam in ('plain', 'persp'):
+        k = int(spec.get('inside_sum', 0))
+        if k:
+            arr_ = rso.exp(x) if spec['atom'] == 'expsum' else rso.log(x)
+            return apply_chain({'chain': spec['chain'][:k]}, arr_, d).sum()
         return AT.build(spec['atom'], rso, x, spec['params'])
     pcs = []
     for p in spec['pieces']:
@@ -256,8 +269,9 @@ def run_probe(spec, value_rhs, objective, ctx):
     m, x, y, t = d['m'], d['x'], d['y'], d['t']
     stage = 'expr'
     try:
-        E = apply_chain({'chain': spec['chain'][int(spec.get('inside_E', 0)):]}
-                        if spec['family'] == 'epw' else spec, atom_expr(spec, d), d)
+        skip_ = int(spec.get('inside_E', 0)) if spec['family'] == 'epw' else \
+            int(spec.get('inside_sum', 0))
+        E = apply_chain({'chain': spec['chain'][skip_:]}, atom_expr(spec, d), d)
         if spec['use'] in ('le', 'ge', 'eq'):
             stage = 'compare'
             R = rhs_obj(spec, d, value_rhs)
